@@ -23,6 +23,11 @@ pub fn lattice(t: Ty) -> Vec<f64> {
     if t == Ty::Int {
         v.extend([70000.0, -70000.0]);
     }
+    if t == Ty::Int || t == Ty::Long {
+        // the ties next to the boundaries: MAX + .5 overflows under either tie rule; MIN - .5 and the
+        // ties inside the range depend on the rule and are left undecided by the reference (R1)
+        v.extend([hi + 0.5, lo - 0.5, hi - 0.5, lo + 0.5]);
+    }
     v
 }
 
@@ -312,6 +317,35 @@ pub fn arithmetic() -> Vec<Snip06> {
                                 boundary: true,
                             });
                         }
+                    }
+                }
+            }
+        }
+        if ta == Ty::Long {
+            // quotients close to a whole number (exact dyadic fractions below 1e-4): they keep their fraction
+            for (x, y) in [(16385i64, 16384i64), (-16385, 16384), (32767, 32768), (16383, 16384), (8193, 8192)] {
+                for (tx, sfx) in [(Ty::Int, ""), (Ty::Double, ".0#")] {
+                    if tx == Ty::Int && (x.abs() > 32767 || y.abs() > 32767) {
+                        continue;
+                    }
+                    for target in [None, Some(Ty::Double), Some(Ty::Int)] {
+                        let mut b = B::new();
+                        let lx = if sfx.is_empty() { num(x) } else { Expr::Num(format!("{}{}", x, sfx)) };
+                        let ly = if sfx.is_empty() { num(y) } else { Expr::Num(format!("{}{}", y, sfx)) };
+                        let e = bin(BinOp::Div, lx, ly);
+                        let mut stmts = vec![];
+                        match target {
+                            None => stmts.push(b.print(vec![e])),
+                            Some(t) => {
+                                stmts.push(b.assign(tv("T", t), e));
+                                stmts.push(b.print(vec![tv("T", t)]));
+                            }
+                        }
+                        out.push(Snip06 {
+                            snip: Snip { stmts, label: format!("near-whole quotient {}{} / {}{} -> {:?}", x, sfx, y, sfx, target), ill_typed: false },
+                            stdin: String::new(),
+                            boundary: true,
+                        });
                     }
                 }
             }
